@@ -127,6 +127,9 @@ class DDEHistory:
     def __init__(self, y0: np.ndarray, t0: float = 0.0,
                  max_steps: Optional[int] = None):
         y0 = np.asarray(y0)
+        if y0.dtype.kind in 'biu':
+            # integer initial values must not fix an integer buffer: later float records would be truncated silently
+            y0 = y0.astype(np.float64)
         if max_steps is None:
             capacity = self._INITIAL_CAPACITY
             self._growable = True
